@@ -2,6 +2,15 @@
 from engines.arena_prop import run_arena_property
 
 def run(ctx):
+    # a collection writes only into the buffer it owns: after every shrinking / converting / splitting operation on the real vector
+    # types another block is allocated from the same arena, filled, and both the vector and that block are re-read later
+    # (stale-pointer / clobbering oracles of the coll harness, tagged C08 there; a write outside the owned buffer is C02's subject)
+    try:
+        from engines.coll import run_coll, finish_coll_obligation
+        run_coll(ctx, 1500 if ctx.quick() else 60000, 14, "std", oracle_props=["C02", "C08"], label="collections(poke and re-read)")
+        finish_coll_obligation(ctx)
+    except ImportError:
+        pass
     return run_arena_property(ctx, ["BumpProof.Props.C02", "BumpProof.Props.Hist@C02", "BumpProof.Props.Targets@C02"],
         runs_quick=[('realloc', 500, 100), ('general', 300, 100)],
         runs_thorough=[('realloc', 6000, 200), ('general', 3000, 200), ('prepared', 2000, 200)],
